@@ -14,7 +14,7 @@ def tlc_agg(run, name, module, cfgtext, **kw):
 
 
 AGG = {
-    "C02": dict(invs=["C02_EntriesMatch"], judge=lambda b: not b["dimpl"],
+    "C02": dict(invs=["C02_EntriesMatch"], judge=lambda b: True,
                 quick=[("MC_C02a", 4, 2), ("MC_C02b", 6, 3)], thorough=[("MC_C02a", 5, 3), ("MC_C02b", 7, 3)],
                 sim=[("MC_C02a", 14, 3), ("MC_C02b", 16, 4)],
                 rule="TLC enumerates well-formed programs over two alphabets (a: definitions, set, option, add_test, "
@@ -28,13 +28,13 @@ AGG = {
                      "some parameters and some names), cmake_parse_arguments at every position, member/test "
                      "declarations with implementing definitions (documented or not), ordinary commands; projection "
                      "compared: the argument of every function directive stemming from a function/macro"),
-    "C09": dict(invs=["C09_Classes"], judge=lambda b: not b["dimpl"],
+    "C09": dict(invs=["C09_Classes"], judge=lambda b: True,
                 quick=[("MC_C09", 5, 2), ("MC_C09b", 8, 1)], thorough=[("MC_C09", 7, 3), ("MC_C09b", 9, 1)], sim=[("MC_C09", 16, 4)],
                 rule="TLC enumerates class structures (bases, attributes with/without default, members with 0-2 types "
                      "incl. args, constructors, implementing functions/macros with 1-4 parameters under the member "
                      "strip pattern, nesting); projection compared: py:class/py:method/py:attribute nesting and order, "
                      "signatures, param/type fields, macro notes, bases, inner-class lists"),
-    "C11": dict(invs=["C11_Tests"], judge=lambda b: not b["dimpl"],
+    "C11": dict(invs=["C11_Tests"], judge=lambda b: True,
                 quick=[("MC_C11", 4, 2)], thorough=[("MC_C11", 5, 2)], sim=[("MC_C11", 14, 3)],
                 rule="TLC enumerates ct_add_test/ct_add_section/add_test commands with NAME at several positions, "
                      "with/without EXPECTFAIL, arguments equal to the name or containing a keyword, sections nested in "
@@ -428,6 +428,7 @@ def c01(run):
         doc_tlc(run, "C01", "IndSmall", "NoFirst", "Bodies3x1", "BothLeaders", run.seed, 3)
     regen_layer(run, "cli")       # the doc lines of the sources as they are now, also after a back-dated edit
     import docclean as _dc
+    _dc.fixed_cases(run)
     _dc.big_file_case(run)
     _dc.twin_cases(run)
     run.assumptions += ["character classes: '#', '[', ']', ':', '.', space, tab, one letter class, one digit class, one "
